@@ -178,10 +178,28 @@ macro_rules! xx_finish {
 //@ unwind: 72
 //@ bounds: any hasher state; buffered lengths of the instance; both the short (< 32 bytes in total) and the long (>= 32) branch
 //@ desc: finish64 of any state equals the XXH64 specification: lane convergence + merge rounds (long) or seed + P5 (short), + length, 8/4/1-byte tail steps, avalanche
-xx_finish!(c16_xxh_finish_short, false, [0, 1, 3, 4, 5, 7, 8, 9, 12, 13, 16, 23, 31]); //@ tier: quick
-xx_finish!(c16_xxh_finish_long, true, [0, 1, 4, 7, 8, 12, 15, 20, 24, 31]); //@ tier: quick
-xx_finish!(c16_xxh_finish_short_rest, false, [2, 6, 10, 11, 14, 15, 17, 18, 19, 20, 21, 22, 24, 25, 26, 27, 28, 29, 30]);
-xx_finish!(c16_xxh_finish_long_rest, true, [2, 3, 5, 6, 9, 10, 11, 13, 14, 16, 17, 18, 19, 21, 22, 23, 25, 26, 27, 28, 29, 30]);
+xx_finish!(c16_xxh_finish_short_a, false, [0, 1, 3]); //@ tier: quick
+xx_finish!(c16_xxh_finish_short_b, false, [4, 7, 8]); //@ tier: quick
+xx_finish!(c16_xxh_finish_short_c, false, [9, 12, 31]); //@ tier: quick
+xx_finish!(c16_xxh_finish_long_a, true, [0, 1, 4]); //@ tier: quick
+xx_finish!(c16_xxh_finish_long_b, true, [7, 8, 15]); //@ tier: quick
+xx_finish!(c16_xxh_finish_long_c, true, [24, 31]); //@ tier: quick
+xx_finish!(c16_xxh_finish_short_d, false, [2, 5, 6]);
+xx_finish!(c16_xxh_finish_short_e, false, [10, 11, 13]);
+xx_finish!(c16_xxh_finish_short_f, false, [14, 15, 16]);
+xx_finish!(c16_xxh_finish_short_g, false, [17, 18, 19]);
+xx_finish!(c16_xxh_finish_short_h, false, [20, 21, 22]);
+xx_finish!(c16_xxh_finish_short_i, false, [23, 24, 25]);
+xx_finish!(c16_xxh_finish_short_j, false, [26, 27, 28]);
+xx_finish!(c16_xxh_finish_short_k, false, [29, 30]);
+xx_finish!(c16_xxh_finish_long_d, true, [2, 3, 5]);
+xx_finish!(c16_xxh_finish_long_e, true, [6, 9, 10]);
+xx_finish!(c16_xxh_finish_long_f, true, [11, 12, 13]);
+xx_finish!(c16_xxh_finish_long_g, true, [14, 16, 17]);
+xx_finish!(c16_xxh_finish_long_h, true, [18, 19, 20]);
+xx_finish!(c16_xxh_finish_long_i, true, [21, 22, 23]);
+xx_finish!(c16_xxh_finish_long_j, true, [25, 26, 27]);
+xx_finish!(c16_xxh_finish_long_k, true, [28, 29, 30]);
 //@ endfamily: x
 
 fn oneshot_case<const N: usize>() {
